@@ -207,24 +207,26 @@ func runStandins(reg []ReplayAdapter, pr *PropertyRun, prop string, wd string, q
 		}
 	}
 	for _, fn := range fns {
-		a := findAdapter(reg, fn)
-		if a == nil || !hasProp(a.Properties, prop) {
-			continue
-		}
-		if quickOnly && !a.Quick {
-			continue
-		}
-		r := runAdapter(a, wd)
-		res := parseAdapter(r, fn, "")
-		key := fn
-		if done[key] {
-			continue
-		}
-		done[key] = true
-		fails := res.Failures
-		out = append(out, map[string]any{"function": fn, "adapter": a.File + ":" + a.Test, "bound": a.Bound, "cases": res.Cases, "failed": len(fails) > 0, "failures": fails, "label": "bounded (not counted as proved)", "adapter_broken": res.Broken, "known_finding_inputs": res.Known})
-		if res.Broken {
-			fmt.Printf("gvc: replay adapter %s did not complete:\n%s\n", a.Test, res.Output)
+		// every adapter registered for the function and the property (a function can be exercised by several)
+		for _, a := range findAdapters(reg, fn) {
+			if !hasProp(a.Properties, prop) {
+				continue
+			}
+			if quickOnly && !a.Quick {
+				continue
+			}
+			key := fn + "|" + a.File + ":" + a.Test
+			if done[key] {
+				continue
+			}
+			done[key] = true
+			r := runAdapter(a, wd)
+			res := parseAdapter(r, fn, "")
+			fails := res.Failures
+			out = append(out, map[string]any{"function": fn, "adapter": a.File + ":" + a.Test, "bound": a.Bound, "cases": res.Cases, "failed": len(fails) > 0, "failures": fails, "label": "bounded (not counted as proved)", "adapter_broken": res.Broken, "known_finding_inputs": res.Known})
+			if res.Broken {
+				fmt.Printf("gvc: replay adapter %s did not complete:\n%s\n", a.Test, res.Output)
+			}
 		}
 	}
 	return out
